@@ -293,10 +293,47 @@ def panic_sig(msg, frame):
     return None
 
 
+class _Res:
+    pass
+
+
+def run_with_dump(ctx, cmd, timeout, env):
+    """like ctx.run, but a run that exceeds the timeout is asked for a goroutine dump (SIGQUIT) before it is killed"""
+    import subprocess, signal
+    e = dict(os.environ); e.update(vlib.GOENV)
+    e['VERIF_SEED'] = str(ctx.seed); e['VERIF_TIER'] = ctx.tier
+    if env:
+        e.update(env)
+    p = subprocess.Popen(cmd, cwd=ctx.build, env=e, stdout=subprocess.PIPE, stderr=subprocess.PIPE, text=True)
+    r = _Res(); r.stalled = False
+    try:
+        r.stdout, r.stderr = p.communicate(timeout=timeout)
+    except subprocess.TimeoutExpired:
+        r.stalled = True
+        p.send_signal(signal.SIGQUIT)
+        try:
+            r.stdout, r.stderr = p.communicate(timeout=20)
+        except subprocess.TimeoutExpired:
+            p.kill()
+            r.stdout, r.stderr = p.communicate()
+    r.returncode = p.returncode
+    return r
+
+
 def run_harness(ctx, cmd, what, timeout=600, env=None):
     """Run a harness mode. Crashes, hangs and race reports of fq code are findings; anything else unexpected is inconclusive.
     Returns dict(rc, races, crashed)."""
-    r = ctx.run(cmd, timeout=timeout, env=env)
+    r = run_with_dump(ctx, cmd, timeout, env)
+    if r.stalled:
+        # the driver did not finish: goroutine dump taken with SIGQUIT. fq code waiting inside ctxstack (or interp.Stop) is a deadlock
+        # of the code under test if it reproduces; anything else is machinery.
+        blocked = sorted(set(re.findall(r'(github\.com/wader/fq/(?:internal/ctxstack|pkg/interp)\.[^\s(]+(?:\([^)]*\))?[^\s(]*)\(', r.stderr)))
+        r2 = run_with_dump(ctx, cmd, timeout, env)
+        if r2.stalled and any('ctxstack' in b for b in blocked):
+            ctx.finding('ctxstack.deadlock', '%s: driver stalled twice (%ds); goroutines blocked in %s' % (what, timeout, blocked[:6]),
+                        dict(kind='hang', mode=cmd[1:], stderr=r.stderr[:6000]))
+            return dict(rc=4, races=0, crashed=True, d7=False)
+        raise Inconclusive('%s: driver stalled (%ds) %s' % (what, timeout, 'once' if not r2.stalled else 'twice, no ctxstack frame in the dump'))
     races, panics = parse_stderr(r.stderr)
     st = ctx.cov.setdefault('harness_runs', {}).setdefault(what, dict(runs=0, race_reports=0, crashes=0))
     st['runs'] += 1
@@ -423,7 +460,7 @@ def interp_arm(ctx):
     bini = ctx.go_build('c20/interpdrv', race=True)
     runs = 160 if thorough else 24
     ip = os.path.join(ctx.build, 'interp_events.ndjson')
-    res = run_harness(ctx, [bini, 'nested', str(runs), ip], 'interp_nested', timeout=1500)
+    res = run_harness(ctx, [bini, 'nested', str(runs), ip], 'interp_nested', timeout=1500 if ctx.tier == 'thorough' else 420)
     nev = 0
     if not res['crashed']:
         events = vlib.read_ndjson(ip)
@@ -444,7 +481,7 @@ def interp_arm(ctx):
                         events=next(([(e['op'], e['a'], ''.join(map(str, e['got']))) for e in events[start[h] + 1:start[h + 1]]]
                                      for h in range(len(start) - 1) if start[h + 1] - start[h] > 8), None)))
     sruns = 60 if thorough else 8
-    res2 = run_harness(ctx, [bini, 'storm', str(sruns)], 'interp_storm', timeout=1500)
+    res2 = run_harness(ctx, [bini, 'storm', str(sruns)], 'interp_storm', timeout=1500 if ctx.tier == 'thorough' else 420)
     ctx.cov['interp_level'] = dict(nested_runs=runs, nested_events=nev, storm_runs=sruns, storm_race_reports=res2['races'])
 
 
